@@ -152,17 +152,18 @@ def run_spec(spec, *, connect_only=False, memory=None, location="spill", check_m
     if on_built:
         on_built(b)
     start = T0 + H(spec["start"])
+    given_start = None if spec.get("auto_start") else start  # None: the composition derives its start time from its components
     if b.deferred is not None:
         # history: a first run with a forgotten link is refused, the link is added, the same composition runs again
         try:
-            b.composition.run(start_time=start, end_time=T0 + H(spec["end"]))
+            b.composition.run(start_time=given_start, end_time=T0 + H(spec["end"]))
             rep.first_attempt = "ok"
         except Exception as e:  # pylint: disable=broad-except
             rep.first_attempt = type(e).__name__
         b.deferred()
     try:
         rep.phase = "connect"
-        b.composition.connect(start)
+        b.composition.connect(given_start)
         if not connect_only:
             rep.phase = "run"
             b.composition.run(end_time=T0 + H(spec["end"]))
